@@ -185,6 +185,12 @@ def generate(rng, tier):
         runs = [dict(kind="record", enabled=True, prm=dict(PRM, copy=rng.random() < 0.3), op=op, save_fails=False)]
         for _ in range(rng.choice([1, 1, 2])):
             runs.append(dict(kind="play", target=0, pf={"kind": "op", "op": rd.clean(op)}, enabled=rng.random() < 0.5))
+        if i % 5 == 1:
+            # a recorder that is not fresh: the same operation is recorded again AFTER a replay ran on this recorder, and
+            # that later recording (and the first one again) is replayed
+            runs.append(dict(kind="record", enabled=True, prm=dict(PRM, copy=rng.random() < 0.3), op=op, save_fails=False))
+            runs.append(dict(kind="play", target=1, pf={"kind": "op", "op": rd.clean(op)}, enabled=rng.random() < 0.5))
+            runs.append(dict(kind="play", target=0, pf={"kind": "op", "op": rd.clean(op)}, enabled=rng.random() < 0.5))
         cases.append(dict(draws=[], runs=runs, cassette=["memory", "file", "s3"][i % 3], unshare=True))
     return cases
 
@@ -220,42 +226,46 @@ def direct(case, obs):
     if "driver_exception" in obs:
         return [("driver", obs["driver_exception"] + obs.get("trace", "")[-400:])]
     fails = []
-    rec_ob = obs["runs"][0]
-    saved = [c for c in rec_ob["cass"] if c["c"] == "save"]
-    if not saved or rec_ob["outcome"]["o"] == "int":
-        return fails
+    rec_obs = [ob for run, ob in zip(case["runs"], obs["runs"]) if run["kind"] == "record"]
     if case.get("probe") == "F01-thread-inside-interception":
+        rec_ob = rec_obs[0]
+        if not [c for c in rec_ob["cass"] if c["c"] == "save"] or rec_ob["outcome"]["o"] == "int":
+            return fails
         d = [ob for run, ob in zip(case["runs"], obs["runs"]) if run["kind"] == "play" and
              canon_rec(ob["pbouts"]) != canon_rec(ob["recouts"])]
         return [("F01-thread-inside-interception", "outputs sent by a worker thread started inside an intercepted body were "
                  "recorded but are not reproduced by the replay")] if d else []
-    if saved[0].get("fetch_ok") is False:
-        # the cassette did not hand back what was saved: the serializer's py/id defect (a value referenced twice inside one
-        # recording, e.g. an exception recorded by an interception and again as the operation's outcome, after a plain
-        # object holding a list/dict).  Everything downstream of it is that finding, not a new violation.
-        diff = any(ob["outcome"] != {"o": "val", "v": {"t": "none"}} or canon_rec(ob["pbouts"]) != canon_rec(ob["recouts"]) or
-                   top_calls(ob["trace"]) != top_calls(rec_ob["trace"])
-                   for run, ob in zip(case["runs"], obs["runs"]) if run["kind"] == "play")
-        return [("F07c-pyid-shift", "the fetched recording differs from the saved one (shared reference after an object "
-                 "with a container attribute)%s" % ("; the replay differs from the record run" if diff else ""))]
-    for i, (run, ob) in enumerate(zip(case["runs"], obs["runs"])):
-        if run["kind"] != "play":
+    for t, rec_ob in enumerate(rec_obs):
+        saved = [c for c in rec_ob["cass"] if c["c"] == "save"]
+        if not saved or rec_ob["outcome"]["o"] == "int":
             continue
-        if ob["outcome"] != {"o": "val", "v": {"t": "none"}}:
-            fails.append(("replay-failed", "run %d: play() of a saved complete recording on the unchanged program ended with %s" %
-                          (i, ob["outcome"])))
+        plays = [(i, ob) for i, (run, ob) in enumerate(zip(case["runs"], obs["runs"]))
+                 if run["kind"] == "play" and run["target"] == t]
+        if saved[0].get("fetch_ok") is False:
+            # the cassette did not hand back what was saved: the serializer's py/id defect (a value referenced twice inside
+            # one recording, e.g. an exception recorded by an interception and again as the operation's outcome, after a
+            # plain object holding a list/dict).  Everything downstream of it is that finding, not a new violation.
+            diff = any(ob["outcome"] != {"o": "val", "v": {"t": "none"}} or canon_rec(ob["pbouts"]) != canon_rec(ob["recouts"]) or
+                       top_calls(ob["trace"]) != top_calls(rec_ob["trace"]) for _, ob in plays)
+            fails.append(("F07c-pyid-shift", "the fetched recording differs from the saved one (shared reference after an "
+                          "object with a container attribute)%s" % ("; the replay differs from the record run" if diff else "")))
             continue
-        if top_calls(ob["trace"]) != top_calls(rec_ob["trace"]):
-            a, b_ = top_calls(rec_ob["trace"]), top_calls(ob["trace"])
-            k = next((j for j, (x, y) in enumerate(zip(a, b_)) if x != y), min(len(a), len(b_)))
-            fails.append(("interception-outcome-differs", "run %d: intercepted call #%d: recorded %s, replayed %s" %
-                          (i, k, a[k] if k < len(a) else None, b_[k] if k < len(b_) else None)))
-        if any(e["e"] == "body" for e in ob["trace"]):
-            fails.append(("body-executed-during-replay", "run %d" % i))
-        if canon_rec(ob["pbouts"]) != canon_rec(ob["recouts"]):
-            pk, rk = dict(canon_rec(ob["pbouts"])), dict(canon_rec(ob["recouts"]))
-            diff = sorted(k for k in set(pk) | set(rk) if pk.get(k) != rk.get(k))
-            fails.append(("outputs-differ", "run %d: playback outputs and recorded outputs differ at %s" % (i, diff[:4])))
+        for i, ob in plays:
+            if ob["outcome"] != {"o": "val", "v": {"t": "none"}}:
+                fails.append(("replay-failed", "run %d: play() of a saved complete recording on the unchanged program ended "
+                              "with %s" % (i, ob["outcome"])))
+                continue
+            if top_calls(ob["trace"]) != top_calls(rec_ob["trace"]):
+                a, b_ = top_calls(rec_ob["trace"]), top_calls(ob["trace"])
+                k = next((j for j, (x, y) in enumerate(zip(a, b_)) if x != y), min(len(a), len(b_)))
+                fails.append(("interception-outcome-differs", "run %d: intercepted call #%d: recorded %s, replayed %s" %
+                              (i, k, a[k] if k < len(a) else None, b_[k] if k < len(b_) else None)))
+            if any(e["e"] == "body" for e in ob["trace"]):
+                fails.append(("body-executed-during-replay", "run %d" % i))
+            if canon_rec(ob["pbouts"]) != canon_rec(ob["recouts"]):
+                pk, rk = dict(canon_rec(ob["pbouts"])), dict(canon_rec(ob["recouts"]))
+                diff = sorted(k for k in set(pk) | set(rk) if pk.get(k) != rk.get(k))
+                fails.append(("outputs-differ", "run %d: playback outputs and recorded outputs differ at %s" % (i, diff[:4])))
     return fails
 
 
